@@ -479,6 +479,25 @@ def r20_4(run, model):
     run.try_rule(c03.r03_9, model, ("subst_ty_silent",))
 
 
+def r20_10(run, model):
+    run.rule("R20.10", "a hover answers for the file it was asked about: the index from syntax pointers to HIR ids is keyed with the file (a "
+                       "syntax pointer is only kind + byte range), or is built from the queried file alone - the table it is built from "
+                       "covers every file of the package")
+    st = model.struct("HirResultsIndex", QUERY)
+    bad = []
+    for fl in st["fields"]:
+        ty = S.norm_ws(str(fl.get("ty") or ""))
+        m = re.match(r"HashMap<([^,]+),", ty)
+        if m and "MySyntaxNodePtr" in m.group(1) and "(" not in m.group(1):
+            bad.append(fl["name"])
+    if not st["fields"]:
+        raise AnalysisIncomplete("HirResultsIndex: no fields")
+    run.ob("R20.10", "HirResultsIndex|syntax pointers are looked up per file", not bad, site(QUERY, st["node"]["sp"]),
+           f"maps keyed by a bare MySyntaxNodePtr: {bad or 'none'}",
+           witness="package Main = main.gom + util.gom with equal headers: hover on `a` in main.gom (int32) answers `string`, the type of the node "
+                   "with the same kind and byte range in util.gom")
+
+
 def run(run, model):
     mir = Mir(run.facts)
     g = Graph(mir)
@@ -486,6 +505,7 @@ def run(run, model):
     run.try_rule(r20_6, model)
     run.try_rule(r20_8, model)
     run.try_rule(r20_9, model)
+    run.try_rule(r20_10, model)
     from rules import c07
     run.rule("R20.7", "the occurs check looks into every component of every type former (shared with C07 R07.2, restricted to typer::unify): a "
                       "missed component lets a cyclic type through and the next query overflows the stack")
